@@ -196,6 +196,14 @@ class Sim:
     def settle(self):
         self.loop.run_until_complete(self._drain())
 
+    def run_iterations(self, n):
+        """let the event loop run exactly n iterations (callbacks that are ready now run in the first one)"""
+        async def _n():
+            for _ in range(n):
+                await asyncio.sleep(0)
+        if n > 0:
+            self.loop.run_until_complete(_n())
+
     # ------------------------------------------------------------------ connections
     def connect(self, cid, settle=True):
         peer = ("127.0.0.1", 40000 + cid)
